@@ -4,7 +4,8 @@ CONSTANTS
  MaxCrash = 1
  MarkerMode = "ifbad"
  MarkerWindow = TRUE
+ MaxFault = 0
 INIT Init
 NEXT Next
-INVARIANTS TypeOK NoStuck CrashStateOK ReturnOK RetryOK
+INVARIANTS TypeOK NoStuck CrashStateOK ReturnOK RetryOK FaultRetOK
 CHECK_DEADLOCK FALSE
